@@ -1,0 +1,38 @@
+//go:build verif
+
+package regions
+
+import "unsafe"
+
+// VerifDump returns a copy of the index structure: the breakpoints in storage
+// order and the interval numbers attached to each. For runtime monitors only.
+func (idx *Index) VerifDump() (starts []int, sets [][]int) {
+	for _, iv := range idx.idx {
+		starts = append(starts, iv.start)
+		sets = append(sets, append([]int(nil), iv.idxs...))
+	}
+	return starts, sets
+}
+
+// VerifShares reports whether s shares backing memory with any slice held by
+// the index. For runtime monitors only.
+func (idx *Index) VerifShares(s []int) bool {
+	if cap(s) == 0 {
+		return false
+	}
+	s = s[:cap(s)]
+	lo := uintptr(unsafe.Pointer(&s[0]))
+	hi := lo + uintptr(len(s))*unsafe.Sizeof(s[0])
+	for _, iv := range idx.idx {
+		if cap(iv.idxs) == 0 {
+			continue
+		}
+		t := iv.idxs[:cap(iv.idxs)]
+		tlo := uintptr(unsafe.Pointer(&t[0]))
+		thi := tlo + uintptr(len(t))*unsafe.Sizeof(t[0])
+		if lo < thi && tlo < hi {
+			return true
+		}
+	}
+	return false
+}
